@@ -389,6 +389,11 @@ pub struct ShardRun {
     pub reports: Vec<vrt::ShardReport>,
     pub timed_out: Vec<usize>,
     pub crashed: Vec<(usize, String)>,
+    /// (enum, message): the shard process died of a signal while exercising this enum, and does so again when it is
+    /// given this enum alone
+    pub aborted: Vec<(String, String)>,
+    /// the enums that were being exercised when the watchdog stopped a shard
+    pub hung_on: Vec<String>,
 }
 
 pub fn run_shards(env: &Env, cfg: &CrateCfg, em: &Emitted, items: &[Item], input_tpl: &vrt::ShardInput, timeout: Duration) -> ShardRun {
@@ -410,14 +415,45 @@ pub fn run_shards(env: &Env, cfg: &CrateCfg, em: &Emitted, items: &[Item], input
             let mut cmd = Command::new(&exe);
             cmd.arg(&inp_path).arg(&out_path);
             let (code, _out, err) = run_with_timeout(cmd, timeout);
-            (sh, code, err, out_path)
+            // killed by a signal (stack overflow, abort): which enum was being exercised, and does it happen again
+            // when the shard is given that enum alone?
+            let mut aborted = None;
+            let died = matches!(code, Some(c) if c == -1 || c == 134 || c == 139) || err.contains("overflowed its stack");
+            if died {
+                let cur = std::fs::read_to_string(format!("{}.cur", out_path.display())).ok();
+                if let (Some(name), Ok(txt)) = (cur, std::fs::read_to_string(&inp_path)) {
+                    if let Ok(mut one) = serde_json::from_str::<vrt::ShardInput>(&txt) {
+                        one.specs.retain(|s| s.name == name);
+                        let p1 = inp_path.with_extension("one.json");
+                        let o1 = out_path.with_extension("one.json");
+                        std::fs::write(&p1, serde_json::to_string(&one).unwrap()).unwrap();
+                        let mut cmd = Command::new(&exe);
+                        cmd.arg(&p1).arg(&o1);
+                        let (c2, _o2, e2) = run_with_timeout(cmd, timeout);
+                        let died2 = matches!(c2, Some(c) if c == -1 || c == 134 || c == 139) || e2.contains("overflowed its stack");
+                        if died2 && one.specs.len() == 1 {
+                            aborted = Some((name, e2.lines().rev().take(3).collect::<Vec<_>>().join(" | ")));
+                        }
+                    }
+                }
+            }
+            (sh, code, err, out_path, aborted)
         }));
     }
-    let mut res = ShardRun { reports: vec![], timed_out: vec![], crashed: vec![] };
+    let mut res = ShardRun { reports: vec![], timed_out: vec![], crashed: vec![], aborted: vec![], hung_on: vec![] };
     for h in handles {
-        let (sh, code, err, out_path) = h.join().unwrap();
+        let (sh, code, err, out_path, aborted) = h.join().unwrap();
+        if let Some(a) = aborted {
+            res.aborted.push(a);
+            continue;
+        }
         match code {
-            None => res.timed_out.push(sh),
+            None => {
+                res.timed_out.push(sh);
+                if let Ok(n) = std::fs::read_to_string(format!("{}.cur", out_path.display())) {
+                    res.hung_on.push(n);
+                }
+            }
             Some(0) => match std::fs::read_to_string(&out_path).ok().and_then(|s| serde_json::from_str::<vrt::ShardReport>(&s).ok()) {
                 Some(r) => res.reports.push(r),
                 None => res.crashed.push((sh, "no report written".into())),
